@@ -426,6 +426,8 @@ func formulasIn(pk *packages.Package, fd *ast.FuncDecl, fn string, subst map[typ
 	if fd.Recv != nil && len(fd.Recv.List) == 1 && len(fd.Recv.List[0].Names) == 1 {
 		polyRecv = info.Defs[fd.Recv.List[0].Names[0]]
 	}
+	polyAbsorbed = map[token.Pos]bool{}
+	absorbedHere := polyAbsorbed
 	polyReach, polyPaths = reachingDefs(info, fd.Body), true
 	if callerReach != nil {
 		// the arguments of the call are read in the caller: its definitions reach them
@@ -441,6 +443,7 @@ func formulasIn(pk *packages.Package, fd *ast.FuncDecl, fn string, subst map[typ
 			polyReach.addr[o] = true
 		}
 	}
+	defer func() { polyAbsorbed = nil }()
 	defer func() { polyRecv, polyRecv2, polyArgs, polyReach, polyPaths = nil, nil, nil, nil, false }()
 	fdefs := singleDefs(info, fd.Body)
 	for o, d := range callerDefs {
@@ -486,6 +489,13 @@ func formulasIn(pk *packages.Package, fd *ast.FuncDecl, fn string, subst map[typ
 		if tok == token.DEFINE {
 			tok = token.ASSIGN
 		}
+		switch l := ast.Unparen(lhsOrNil(lhs)).(type) {
+		case *ast.Ident:
+			polySelfObj = info.ObjectOf(l)
+		case *ast.SelectorExpr:
+			polySelfText = strings.ReplaceAll(exprText(info, l), " ", "")
+		}
+		defer func() { polySelfObj, polySelfText = nil, "" }()
 		if hasBoolOp(rhs) {
 			if b, ok := info.TypeOf(rhs).Underlying().(*types.Basic); ok && b.Kind() == types.Bool {
 				named := boolForm(info, rhs, nil)
@@ -595,6 +605,32 @@ func formulasIn(pk *packages.Package, fd *ast.FuncDecl, fn string, subst map[typ
 			merged[k] = v
 		}
 		polyArgs = merged
+		// the helper's own locals are read through too (its single definitions and reaching definitions join the
+		// caller's for the time of the reading)
+		var addedDefs []types.Object
+		for o, d := range singleDefs(info, hd.fd.Body) {
+			if _, dup := fdefs[o]; !dup {
+				fdefs[o] = d
+				addedDefs = append(addedDefs, o)
+			}
+		}
+		var addedReach []types.Object
+		var addedParents []ast.Node
+		if polyReach != nil {
+			hr := reachingDefs(info, hd.fd.Body)
+			for o, ds := range hr.defs {
+				if _, dup := polyReach.defs[o]; !dup {
+					polyReach.defs[o] = ds
+					addedReach = append(addedReach, o)
+				}
+			}
+			for n, p := range hr.parents {
+				if _, dup := polyReach.parents[n]; !dup {
+					polyReach.parents[n] = p
+					addedParents = append(addedParents, n)
+				}
+			}
+		}
 		ast.Inspect(hd.fd.Body, func(m ast.Node) bool {
 			if _, isLit := m.(*ast.FuncLit); isLit {
 				return false
@@ -604,6 +640,15 @@ func formulasIn(pk *packages.Package, fd *ast.FuncDecl, fn string, subst map[typ
 			}
 			return true
 		})
+		for _, o := range addedDefs {
+			delete(fdefs, o)
+		}
+		for _, o := range addedReach {
+			delete(polyReach.defs, o)
+		}
+		for _, n := range addedParents {
+			delete(polyReach.parents, n)
+		}
 		polyArgs = saved
 	}
 	ast.Inspect(fd.Body, func(n ast.Node) bool {
@@ -657,7 +702,7 @@ func formulasIn(pk *packages.Package, fd *ast.FuncDecl, fn string, subst map[typ
 			}
 			if fobj := callee(info, x); fobj != nil {
 				for i, a := range x.Args {
-					if hasArith(a) {
+					if hasArith(a) || inlinedArith(info, a) {
 						add(fmt.Sprintf("call:%s#%d", fobj.Name(), i), token.ASSIGN, nil, a, x.Pos())
 					}
 					liftHelper(a, fmt.Sprintf("call:%s#%d", fobj.Name(), i), nil, x.Pos())
@@ -676,7 +721,81 @@ func formulasIn(pk *packages.Package, fd *ast.FuncDecl, fn string, subst map[typ
 		}
 		return true
 	})
+	// an assignment whose value a later assignment of the same variable reads in (x = a; x = min(x, m)) is spelled out by
+	// that later one in the resolved forms: there it does not count on its own
+	for i := range out {
+		if out[i].via == "" && absorbedHere[out[i].pos] && !strings.ContainsAny(out[i].target, "#:") {
+			out[i].res, out[i].ra = "~", "~"
+		}
+	}
 	return out
+}
+
+// replaceIdentToken replaces every occurrence of the identifier path `from` that stands on its own (not part of a
+// longer name or path) by `to`.
+func replaceIdentToken(s, from, to string) string {
+	isId := func(b byte) bool {
+		return b == '_' || b == '.' || (b >= '0' && b <= '9') || (b >= 'a' && b <= 'z') || (b >= 'A' && b <= 'Z')
+	}
+	var out strings.Builder
+	for i := 0; i < len(s); {
+		if strings.HasPrefix(s[i:], from) && (i == 0 || !isId(s[i-1])) && (i+len(from) == len(s) || !(isId(s[i+len(from)]) || s[i+len(from)] == '(' || s[i+len(from)] == '[')) {
+			out.WriteString(to)
+			i += len(from)
+			continue
+		}
+		out.WriteByte(s[i])
+		i++
+	}
+	return out.String()
+}
+
+// resortMinMax puts the arguments of every min(…;…) / max(…;…) atom in s back in canonical (sorted) order.
+func resortMinMax(s string) string {
+	var out strings.Builder
+	for i := 0; i < len(s); {
+		if (strings.HasPrefix(s[i:], "min(") || strings.HasPrefix(s[i:], "max(")) && (i == 0 || !(s[i-1] == '_' || s[i-1] == '.' || (s[i-1] >= '0' && s[i-1] <= '9') || (s[i-1] >= 'a' && s[i-1] <= 'z') || (s[i-1] >= 'A' && s[i-1] <= 'Z'))) {
+			depth, j := 0, i+3
+			for ; j < len(s); j++ {
+				if s[j] == '(' {
+					depth++
+				} else if s[j] == ')' {
+					depth--
+					if depth == 0 {
+						break
+					}
+				}
+			}
+			if j < len(s) {
+				inner := s[i+4 : j]
+				var parts []string
+				d, start := 0, 0
+				for k := 0; k < len(inner); k++ {
+					switch inner[k] {
+					case '(':
+						d++
+					case ')':
+						d--
+					case ';':
+						if d == 0 {
+							parts = append(parts, resortMinMax(inner[start:k]))
+							start = k + 1
+						}
+					}
+				}
+				parts = append(parts, resortMinMax(inner[start:]))
+				sort.Strings(parts)
+				out.WriteString(s[i : i+4])
+				out.WriteString(strings.Join(parts, ";"))
+				out.WriteByte(')')
+				i = j + 1
+				continue
+			}
+		}
+		out.WriteByte(s[i])
+		i++
+	}
+	return out.String()
 }
 
 func lhsOrNil(e ast.Expr) ast.Expr {
@@ -823,6 +942,16 @@ func sameMultiset(a, b []string) bool {
 	return true
 }
 
+func notAbsorbed(a []string) []string {
+	var out []string
+	for _, s := range a {
+		if s != "~" {
+			out = append(out, s)
+		}
+	}
+	return out
+}
+
 func ruleFormulaSpec(c *Ctx) {
 	all := collectFormulas(c.P)
 	type verdict struct {
@@ -864,6 +993,7 @@ func ruleFormulaSpec(c *Ctx) {
 	}
 	// same: multiset equality; for sites read through a helper (once per call site) equality of the sets
 	same := func(got, want []string, via bool) bool {
+		got, want = notAbsorbed(got), notAbsorbed(want)
 		if len(want) == 0 {
 			return false
 		}
@@ -1043,7 +1173,8 @@ func ruleFormulaSpec(c *Ctx) {
 		if len(rest) == 0 {
 			return "+= 0"
 		}
-		return "+= " + strings.Join(rest, " + ")
+		// what is left may still mention the target (t - min(t, d)): there it is the previous value
+		return "+= " + resortMinMax(replaceIdentToken(strings.Join(rest, " + "), t, "§self"))
 	}
 	for i, e := range formulaTable {
 		if verdicts[i].status == "ok" || strings.ContainsAny(e.target, "#:") {
@@ -1068,7 +1199,7 @@ func ruleFormulaSpec(c *Ctx) {
 					cands = append(cands, reduceBy(sv.named, e.target), reduceBy(sv.res, e.target))
 				}
 				for _, cnd := range cands {
-					if cnd != "" && (cnd == e.named[k] || (k < len(e.res) && cnd == e.res[k])) {
+					if cnd != "" && cnd != "~" && (cnd == e.named[k] || (k < len(e.res) && cnd == e.res[k])) {
 						found = true
 					}
 				}
